@@ -46,6 +46,18 @@ class Gen:
         self.size = size
         self.reset()
 
+    @property
+    def injected(self):
+        return self._injected
+
+    @injected.setter
+    def injected(self, v):
+        if v is not None and getattr(self, "_pending_multi", False):
+            self.multi.append(v)
+            self._pending_multi = False
+        else:
+            self._injected = v
+
     def reset(self):
         self.ln = 1
         self.structs = {}      # name -> list of (attr, type) as declared
@@ -58,6 +70,9 @@ class Gen:
         self.tag = 0
         self.sites = {}
         self.inject = None     # (rule, k) or None
+        self.inject2 = None    # set of (rule, k): several faults in one program
+        self._pending_multi = False
+        self.multi = []        # descriptions of the faults injected through inject2
         self.injected = None   # description of the injected fault
         self.work_types = []
 
@@ -115,6 +130,11 @@ class Gen:
         k = self.sites.get(rule, 0)
         self.sites[rule] = k + 1
         if self.inject is not None and self.injected is None and self.inject == (rule, k):
+            return True
+        if self.inject2 and (rule, k) in self.inject2 and self.injected is None:
+            # several faults in one program: remember what was injected and keep going
+            self.inject2.discard((rule, k))
+            self._pending_multi = True
             return True
         return False
 
@@ -199,7 +219,23 @@ class Gen:
     def call(self, f, depth):
         ps, _ = self.fns[f]
         if self.site("R10"):
-            c = self.rng.randrange(3)
+            c = self.rng.randrange(4)
+            if c == 3 and len(ps) >= 2:
+                # two faults inside one call: an earlier argument of the wrong type, a later one that
+                # does not analyse; the first violation is the type of the earlier argument
+                j = self.rng.randrange(len(ps) - 1)
+                args = []
+                for i, (_, pt) in enumerate(ps):
+                    if i == j:
+                        args.append(["expr", ["prim", self.lit(self.other_prim(pt)[1])]])
+                    elif i == j + 1:
+                        args.append(["expr", ["prim", self.lit("i32")], ["Multiply", ["name", self.ident("undeclared")]]])
+                    else:
+                        args.append(self.expr(pt, 0))
+                self.injected = {"rule": "R10", "kind": "FunctionParameterTypeWrong"}
+                return ["call", self.ident(f)] + args
+            if c == 3:
+                c = 0
             if c == 0 or (c == 1 and not ps):
                 self.injected = {"rule": "R10", "kind": "FunctionNotFound", "name": "nofn"}
                 return ["call", self.ident("nofn")] + [self.expr(pt, depth) for _, pt in ps]
@@ -515,6 +551,24 @@ RULES = ["R1", "R2", "R3", "R4", "R5", "R6c", "R6f", "R6p", "R7", "R9", "R10", "
 def gen_wf(seed, size=1.0):
     g = Gen(seed, size)
     return g.program(), {"stream": "wf", "seed": seed}
+
+
+def gen_multi_fault(seed, nfaults=2):
+    """A well-formed program with several independent faults (different rules, random sites):
+    the first error must still be the first violation in analysis order."""
+    rr = random.Random(seed ^ 0xFA17)
+    g = Gen(seed)
+    g.program()
+    avail = [(ru, n) for ru, n in g.sites.items() if n > 0]
+    if len(avail) < 2:
+        return gen_wf(seed)
+    picks = set()
+    for ru, n in rr.sample(avail, min(nfaults, len(avail))):
+        picks.add((ru, rr.randrange(n)))
+    g = Gen(seed)
+    g.inject2 = set(picks)
+    p = g.program()
+    return p, {"stream": "fault2", "seed": seed, "faults": g.multi}
 
 
 def gen_fault(seed, rule=None):
@@ -1017,6 +1071,8 @@ def generate(seed, n_wf, n_fault, n_free, n_known=0):
         out.append(gen_fault(base.randrange(1 << 48), RULES[i % len(RULES)]))
     for _ in range(n_free):
         out.append(gen_free(base.randrange(1 << 48)))
+    for _ in range(n_fault // 2):
+        out.append(gen_multi_fault(base.randrange(1 << 48), 2 + (_ % 2)))
     for _ in range(n_known):
         out.append(gen_known(base.randrange(1 << 48)))
     return out
